@@ -151,7 +151,16 @@ impl Property for C03 {
                 st.evaluations += 1;
                 st.nontrivial_enumerated += 1;
                 st.count("threshold_family.cases");
-                if let Err(e) = small_oracle(&refs, &bytes) {
+                let sorted_too = || -> Result<(), String> {
+                    // wide nodes: the same comparison on the sort-by-name rendering (sorting code paths change with size)
+                    let schema = crate::refinf::infer("r", &refs);
+                    let root = crate::sut::parse_seq(&bytes).map_err(|(i, e)| format!("document #{} rejected: {}", i + 1, e))?;
+                    let src = root.to_serde_struct(&crate::sut::opts_quick(true, ""));
+                    let defs = crate::rendered::read_lines(&src).map_err(|e| format!("sorted output unreadable: {}", e))?;
+                    let tree = crate::rendered::build_tree(&defs, "@", "$text").map_err(|e| format!("sorted output is not a tree: {}", e))?;
+                    compare_schema(&schema, &tree, "").map_err(|e| format!("sorted rendering differs from the reference inference: {}", e))
+                };
+                if let Err(e) = small_oracle(&refs, &bytes).and_then(|_| sorted_too()) {
                     let short: Vec<String> = bytes.iter().map(|b| { let s = String::from_utf8_lossy(b); if s.len() > 160 { format!("{}... ({} bytes)", &s[..160], s.len()) } else { s.to_string() } }).collect();
                     return Err((Failure::new(format!("threshold family n={}: {}", n, e.lines().next().unwrap_or(""))).with_detail(json!({"documents": short})), json!({"threshold_n": n})));
                 }
